@@ -1,4 +1,4 @@
-// GENERATED on every run by vlib/extract.py from /tmp/seedcheck-13127 -- do not edit
+// GENERATED on every run by vlib/extract.py from /tmp/seedcheck-6643 -- do not edit
 #![allow(unused_imports, unused_variables, unused_mut, dead_code, unused_parens, unused_braces, non_snake_case)]
 use vstd::prelude::*;
 use core::cmp::Ordering;
@@ -658,6 +658,12 @@ pub proof fn lemma_sorted_partition(v: Seq<(QualifierKey, SmallString)>, t: Seq<
 
 
 
+/// documented panic: indexing a qualifier that is absent
+#[verifier::external_body]
+pub fn x_panic_absent() -> !
+    requires false
+{ panic!() }
+
 impl<S: AsRef<str>> MixedQualifierKey<S> {
     pub open spec fn text(&self) -> Seq<char> {
         match self { MixedQualifierKey::Lower(s) => s.text(), MixedQualifierKey::Mixed(s) => s.text() }
@@ -862,7 +868,31 @@ where SmallString: From<S>,
             <SmallString as vstd::std_specs::convert::FromSpec<S>>::obeys_from_spec() ==> r.parts.namespace == <SmallString as vstd::std_specs::convert::FromSpec<S>>::from_spec(new)
 { unimplemented!() }
 }
+// ---- unit T.PurlShape  <= purl/src/lib.rs:111 ----
+pub trait PurlShape: Sized {
+    type Error: From<ParseError>;
+    spec fn type_text(&self) -> Seq<char>;
+    fn package_type(&self) -> (r: Cow<str>)
+        ensures r@ == self.type_text();
+    spec fn finish_rel(t0: Self, p0: PurlParts, t1: Self, p1: PurlParts, r: Result<(), Self::Error>) -> bool;
+    fn finish(&mut self, parts: &mut PurlParts) -> (r: Result<(), Self::Error>)
+        ensures Self::finish_rel(*old(self), *old(parts), *final(self), *final(parts), r),
+            // the hook can only reach the qualifier list through its public API, every mutator of which is
+            // proved to preserve the representation invariant (group `qual`); assumed for user-written hooks
+            wf_seq(old(parts).qualifiers.qualifiers@) ==> wf_seq(final(parts).qualifiers.qualifiers@);
+}
+// ---- unit noop  <= (contracts):0 ----
+
 impl<T> GenericPurl<T> {
+// ---- unit U-acc.builder  <= purl/src/lib.rs:258 ----
+pub fn builder<S>(package_type: T, name: S) -> (r: GenericPurlBuilder<T>)
+where SmallString: From<S>, T: PurlShape,
+        ensures r.package_type == package_type,
+            r.parts.namespace@.len() == 0, r.parts.version@.len() == 0, r.parts.subpath@.len() == 0, r.parts.qualifiers.qualifiers@.len() == 0,
+            <SmallString as vstd::std_specs::convert::FromSpec<S>>::obeys_from_spec() ==> r.parts.name == <SmallString as vstd::std_specs::convert::FromSpec<S>>::from_spec(name)
+{
+        GenericPurlBuilder::new(package_type, name)
+    }
 // ---- unit U-acc.package_type  <= purl/src/lib.rs:283 ----
 pub fn package_type(&self) -> (r: &T)
         ensures *r == self.package_type
@@ -999,7 +1029,9 @@ pub fn combined_name(&self) -> (r: Cow<'_, str>)
                 x_cow_from_str(self.name())
             },
             PackageType::Golang | PackageType::Npm => match self.namespace() {
-                Some(namespace) => Cow::Owned(x_concat3(namespace, '/', self.name())),
+                Some(namespace) => {
+                    Cow::Owned(format!("{}/{}", namespace.trim_end_matches('/'), self.name()))
+                },
                 None => x_cow_from_str(self.name()),
             },
             PackageType::Maven => match self.namespace() {
